@@ -163,6 +163,17 @@ def run(chk):
         chk.count(1, key=("score",))
         if not close(sc1, sc2, rtol=1e-6, atol=1e-7):
             chk.fail("linear scores change under feature rescaling", ctx)
+        # ... also when one feature is expressed in very small units (its variances fall below 1e-16; the floors are transformed along)
+        if i % 4 == 1:
+            a9 = a.copy()
+            a9[0] = np.sign(a[0]) * 1e-9
+            m9 = make_gmm(w, a9 * mu, a9 * a9 * var, thr=a9 * a9 * thr)
+            st9 = tr_stats(st, a9, np.zeros(D))
+            sc9 = linear_scoring(a9 * models, m9, [st9], a9 * off, True)
+            chk.count(1, key=("score-tiny-units",))
+            if not close(sc1, sc9, rtol=1e-6, atol=1e-7):
+                chk.fail("linear scores change when one feature is expressed in units 1e9 times larger (variance below 1e-16, floors transformed along)",
+                         dict(ctx, a=hexlist(a9), b=hexlist(np.zeros(D))))
         # ---- ISV / JFA: factors and scores invariant, client mean follows the features
         if i % 3 == 0:
             # a well-conditioned (unit-scale) UBM for the factor-analysis part; the transformed side carries the scales
